@@ -7,10 +7,11 @@ _WORLD_MODULES = {
     "arbiter": "worlds.arbiter",
     "wbdec": "worlds.wbdec",
     "wb2csr": "worlds.wb2csr",
+    "sram": "worlds.sram",
 }
 PROPERTY_WORLD = {
     "C04": "mux", "C05": "mux",
-    "C07": "wbdec", "C10": "wb2csr",
+    "C07": "wbdec", "C10": "wb2csr", "C15": "sram",
     "C08": "arbiter", "C09": "arbiter",
     "C02": "memmap", "C03": "memmap", "C18": "memmap",
 }
